@@ -173,6 +173,13 @@ BUILDERS = {"P1": p1_atoms, "P2": p2_structs, "P3": p3_scopes, "P4": p4_scale}
 
 
 def build(name, image=0, **kw):
+    if name == "P0":
+        from . import p0
+
+        p = p0.load_cached()
+        if image != 0:  # image 0 = the memory recorded in the L5X
+            fill_image(p, image)
+        return p
     p = BUILDERS[name](**kw)
     fill_image(p, image)
     return p
